@@ -22,7 +22,10 @@ def main():
     ap.add_argument("--all", action="store_true")
     ap.add_argument("--tier", default="quick")
     ap.add_argument("--tests", action="store_true", help="also run the repository's stable test set with the change applied")
+    ap.add_argument("--worktree", action="store_true", help="evaluate in a scratch worktree of /repo (PYTHONPATH) with evidence redirected; /repo and /verif/evidence stay untouched")
     a = ap.parse_args()
+    if a.worktree:
+        return main_worktree(a)
     d = os.path.abspath(a.dir)
     patch = os.path.join(d, "patch.diff")
     demo = os.path.join(d, "demo.py")
@@ -62,6 +65,53 @@ def main():
         rc, out = sh("git status --porcelain --untracked-files=no", cwd="/repo")
         if out.strip():
             sh("git checkout -- .", cwd="/repo")
+    print("demo: clean rc", res.get("demo_clean_rc"), "mutant rc", res.get("demo_mutant_rc"))
+    json.dump(res, open(os.path.join(d, "result.json"), "w"), indent=1)
+
+
+def main_worktree(a):
+    import shutil, tempfile
+    d = os.path.abspath(a.dir)
+    patch = os.path.join(d, "patch.diff")
+    demo = os.path.join(d, "demo.py")
+    wt = tempfile.mkdtemp(prefix="seedwt_", dir="/tmp")
+    out_dir = tempfile.mkdtemp(prefix="seedout_", dir="/tmp")
+    os.rmdir(wt)
+    rc, out = sh(f"git worktree add -q --detach {wt} HEAD", cwd="/repo")
+    if rc != 0:
+        sys.exit(out)
+    res = dict(dir=d, tier=a.tier, mode="worktree")
+    env = dict(os.environ, PYTHONPATH=wt, VERIF_OUT=out_dir)
+    try:
+        if os.path.exists(demo):
+            rc, out = sh(f"timeout 600 /venv/bin/python {demo}", cwd="/tmp")
+            res["demo_clean_rc"] = rc
+        rc, out = sh(f"git apply {patch}", cwd=wt)
+        if rc != 0:
+            sys.exit(f"patch does not apply: {out}")
+        rc, out = sh("/venv/bin/python -c 'import cubed; print(cubed.__file__)'", cwd="/tmp", env=env)
+        assert out.strip().startswith(wt), out
+        if os.path.exists(demo):
+            rc, out = sh(f"timeout 600 /venv/bin/python {demo}", cwd="/tmp", env=env)
+            res["demo_mutant_rc"] = rc
+            res["demo_mutant_tail"] = out[-600:]
+        checks = ALL if a.all else [c for c in a.checks.split(",") if c]
+        res["checks"] = {}
+        for c in checks:
+            t = time.time()
+            rc, out = sh(f"./check {c} --tier {a.tier}", cwd=ROOT, timeout=7200, env=env)
+            viol = [l for l in out.splitlines() if l.startswith("VIOLATION") or l.startswith("HARNESS-ERROR")]
+            first = [l for l in out.splitlines() if l.startswith("  ")][:2]
+            res["checks"][c] = dict(rc=rc, violations=len(viol), first=first, wall=round(time.time() - t, 1))
+            print(f"{c}: {'DETECTED' if rc == 1 else ('HARNESS-ERROR' if rc == 2 else 'missed')} ({len(viol)} violation lines, {res['checks'][c]['wall']}s)")
+            for l in first[:2]:
+                print("     ", l[:300])
+            if rc == 2:
+                print(out[-1500:])
+    finally:
+        sh(f"git worktree remove --force {wt}", cwd="/repo")
+        shutil.rmtree(wt, ignore_errors=True)
+        shutil.rmtree(out_dir, ignore_errors=True)
     print("demo: clean rc", res.get("demo_clean_rc"), "mutant rc", res.get("demo_mutant_rc"))
     json.dump(res, open(os.path.join(d, "result.json"), "w"), indent=1)
 
